@@ -23,7 +23,9 @@ META = {
         '(literal(..), multispace0, an always-Ok helper) or its Err edge restores the input from a checkpoint taken before the '
         'call on every path; (R13.3) every loop makes progress: each cycle passes through a consuming step (a consuming '
         'sub-parser, a slice advance by >= 1, a cursor increment) or the loop has the explicit no-progress exit; (R13.4) the '
-        'entry function returns Ok only on the "remaining input is empty" edge; (R13.6) nothing parsed is silently dropped: for '
+        'entry function returns Ok only on the "remaining input is empty" edge; (R13.5) the name scanners (cursor + final `&start[0..cursor]`) '
+        'can stop only right after a byte that passed an alphanumeric class test - an advance over a byte only known to be `.`, `-` or `_` must be '
+        'followed by one that is, or the last byte is checked before Ok; (R13.6) nothing parsed is silently dropped: for '
         'every accumulator (a Vec that receives push in a parser), on every feasible Ok path on which it was pushed to '
         '(flag variables followed by constant propagation) it is moved into the returned tree. Not decided: that the accepted '
         'language is exactly the Varlink grammar and the tree the denoted one (language equivalence).'),
@@ -393,7 +395,86 @@ def check_conservation(rep, crate, cfg):
     rep.floor('R13.6', 6, 'accumulators in parser functions')
 
 
+CLASS_CALLS = {'is_ascii_alphanumeric', 'is_ascii_alphabetic', 'is_ascii_uppercase', 'is_ascii_lowercase', 'is_ascii_digit'}
+
+
+def check_name_endings(rep, crate, cfg):
+    """R13.5: a name scanner can only stop right after a byte that passed an alphanumeric class test (separators such as
+    `.`, `-`, `_` only ever stand between alphanumeric characters in the Varlink grammar)"""
+    n = 0
+    for body in parser_bodies(crate):
+        if body.kind != 'Fn':
+            continue
+        # the returned name: &start[0..cursor]
+        finals = []
+        for blk, t in body.iter_terms('call'):
+            if t['callee'].get('name') == 'index':
+                rng = body.trace(t['args'][1])
+                if rng.get('kind') == 'aggr' and rng['rv'].get('adt', '').endswith('ops::Range') and rng['rv']['ops'][0].get('val') == 0:
+                    q = op_place(rng['rv']['ops'][1])
+                    if q and place_is_local(q):
+                        k = Bounds(body).key_of(rng['rv']['ops'][1])
+                        if k and k[0] == 'local' and body.local_name(k[1]):
+                            finals.append((blk, k[1]))
+        if not finals:
+            continue
+        fblk, cur = finals[0]
+        incs = []
+        for b2, i2, s2 in body.iter_assigns():
+            if place_is_local(s2['place']) and s2['place']['l'] == cur and s2['rv']['k'] == 'use':
+                tr = body.trace(s2['rv']['op'])
+                if tr.get('kind') == 'bin' and tr['op'] == 'Add':
+                    incs.append((tr.get('block', b2), b2))
+        # class-test facts: switch whose condition is a class call on input[cur]
+        class_true = []
+        for sw in range(body.n):
+            if body.is_cleanup(sw) or body.term(sw)['k'] != 'switch':
+                continue
+            info = body.switch_info(sw)
+            if info and info.get('kind') == 'bool' and info['src'].get('kind') == 'call' and info['src']['callee'].get('name') in CLASS_CALLS:
+                class_true.append((sw, info['true'], info['false']))
+            elif info and info.get('kind') == 'bool' and info['src'].get('kind') == 'call' and info['src']['callee'].get('name') in ('is_some_and', 'map_or', 'is_ok_and') and \
+                    any(a.get('k') == 'const' and any(cn in (a.get('fn') or '') for cn in CLASS_CALLS) for a in info['src']['args']):
+                class_true.append((sw, info['true'], info['false']))
+        certified, uncertified = set(), []
+        for cb, sb in incs:
+            ok = False
+            for sw, tt, ff in class_true:
+                if body.dominates(sw, cb) and cb in body.reachable(tt) and cb not in body.reachable(ff, avoid={sw}):
+                    # the cursor is not changed between the test and this increment
+                    kills = {d[0] for d in body.defs().get(cur, [])} - {sb}
+                    if not any(kb in body.reachable(tt, avoid={sw}) and cb in body.reachable(kb, avoid={sw}) for kb in kills):
+                        ok = True
+            if ok:
+                certified.add(sb)
+            else:
+                uncertified.append((cb, sb))
+        # post-scan check idiom: the Ok return is dominated by the true edge of a class test outside every loop
+        okb = C.ok_exit_blocks(body)
+        loops = set()
+        for a, h in body.back_edges():
+            loops |= body.loop_body(h, a)
+        post_check = any(sw not in loops and (body.dominates(fblk, sw) or all(body.dominates(sb_, sw) for cb_, sb_ in incs[:1]) and False) and all(body.dominates(sw, ob) and ob in body.reachable(tt) and ob not in body.reachable(ff, avoid={sw}) for ob in okb)
+                         for sw, tt, ff in class_true) and bool(okb)
+        ord_ = 0
+        for cb, sb in uncertified:
+            ord_ += 1
+            n += 1
+            r = body.reachable(sb, avoid=certified)
+            ends_there = fblk in r
+            rep.check(not ends_there or post_check, 'R13.5', '%s|separator-advance|%d|%s' % (body.path, ord_, cfg), C.where(body, sb),
+                      'after this advance over a byte not known to be alphanumeric the name cannot end (%s)' % ('final alphanumeric check before Ok' if post_check else 'an alphanumeric byte must follow'),
+                      'the scanner advances over a byte that is only known to be a separator and can then stop: `%s` accepts names that end with a separator '
+                      '(e.g. a trailing `.`, `-` or `_`), which the Varlink grammar does not allow' % body.name)
+        for sb in sorted(certified):
+            n += 1
+            rep.ok('R13.5', '%s|class-advance|%d|%s' % (body.path, sorted(certified).index(sb), cfg), C.where(body, sb), 'advance over a byte that passed an alphanumeric class test')
+    if n < 4:
+        rep.bad('R13.5', 'floor|%s' % cfg, '-', 'expected cursor advances in the name scanners (field_name, type_name, interface_name), found %d' % n)
+
+
 def check(fx, rep, tier):
+    rep.rule('R13.5', 'name scanners can stop only right after a byte that passed an alphanumeric class test, or check the last byte before returning Ok')
     rep.rule('R13.1', 'every index / range slice / unwrap in idl::parse is discharged: dominating len / is_empty / starts_with guards, inductive cursors, frozen unwrap table; no str byte-slicing')
     rep.rule('R13.2', 'no parse error is dropped with the input advanced: unpropagated results are probes / infallible or restore a checkpoint on every Err path')
     rep.rule('R13.3', 'every loop cycle passes a consuming step or the loop has an explicit no-progress exit')
@@ -410,4 +491,5 @@ def check(fx, rep, tier):
         check_progress(rep, crate, cfg)
         check_entry(rep, crate, cfg)
         check_conservation(rep, crate, cfg)
+        check_name_endings(rep, crate, cfg)
     return META
